@@ -15,7 +15,7 @@ import random
 
 from simkit.driver import Check, base_result
 from ref import codec as C
-from checks.worlda import (WorldA, draw_knobs, draw_sched, NODE_HOST, NODE_REALM,
+from checks.worlda import (WorldA, draw_knobs, draw_sched, draw_stalls, draw_func_stalls, install_func_stalls, NODE_HOST, NODE_REALM,
                            PEER_HOST, PEER_REALM)
 
 TAG = 99999
@@ -65,8 +65,25 @@ class C05(Check):
                "max_latency": rng.choice([0.0005, 0.003])}
         stalls = [{"t": rng.choice([0.0, 0.003, 0.02]), "dur": rng.choice([0.002, 0.02, 0.2])}
                   for _ in range(rng.choice([0, 0, 0, 1, 2]))]
+        func_stalls = draw_func_stalls(rng)
+        if index % 4 == 3:
+            # race sweep: two busy submitters on the shipped 0.1 ms tick, and one stalled-thread fault whose
+            # placement (function, k-th call, step after entry) is enumerated by the run index
+            j = index // 4
+            funcs = ["TcpConnection.write", "TcpConnection._set_selector_events_mask",
+                     "DiameterAssociation.send_message_from_queue", "TcpConnection._write"]
+            func_stalls = [{"func": funcs[j % 4], "call": 1 + (j // 4) % 4, "line": (j // 16) % 14, "dur": 0.02}]
+            subs = [{"start": 0.0, "ops": [{"n": 1, "pads": [40], "kinds": ["req"], "wait": w} for _ in range(8)]}
+                    for w in (0.0, 0.0002)]
+            knobs["STATE_MACHINE_TICKER"] = 0.0001
+            knobs["SEND_BUFFER_MAXIMUM_SIZE"] = 4096 * 64
+            net["p_partial_write"] = 0.5
+            stalls = []
+            inbound = inbound[:1]
         return {"mode": rng.choice(["CLIENT", "SERVER"]), "subs": subs, "inbound": inbound,
-                "write_stalls": stalls, "sched": draw_sched(rng), "knobs": knobs, "net": net,
+                "write_stalls": stalls, "thread_stalls": draw_stalls(rng, span=600),
+                "func_stalls": func_stalls,
+                "sched": draw_sched(rng), "knobs": knobs, "net": net,
                 "watchdog": 30, "horizon": 120.0}
 
     def shrink(self, scn):
@@ -106,6 +123,11 @@ class C05(Check):
             c = copy.deepcopy(scn)
             c["write_stalls"] = []
             yield c
+        for key in ("thread_stalls", "func_stalls"):
+            for i in range(len(scn.get(key, []))):
+                c = copy.deepcopy(scn)
+                del c[key][i]
+                yield c
         for key in ("p_partial_write", "p_one_byte_write"):
             if scn["net"].get(key):
                 c = copy.deepcopy(scn)
@@ -118,7 +140,7 @@ class C05(Check):
 
     def nontrivial(self, res):
         f = res.get("faults", {})
-        return f.get("partial_write", 0) > 0 or f.get("inbound_while_output_pending", 0) > 0 or \
+        return f.get("partial_write", 0) > 0 or f.get("inbound_while_output_pending", 0) > 0 or f.get("thread_stall", 0) > 0 or \
             f.get("batch_limit_hit", 0) > 0 or res.get("submitters", 0) >= 2
 
     def sample(self, scn, res):
@@ -136,7 +158,8 @@ class C05(Check):
         stats = {"opened": False, "submitted": 0, "batch_limit_hit": 0, "inbound_while_pending": 0}
         nmsgs = sum(op["n"] for s in scn["subs"] for op in s["ops"])
         D = 3.0 + 6 * nmsgs * tick + 2 * knobs["TRACKING_SOCKET_EVENTS_TIMEOUT"] + \
-            nmsgs * 30000 * sim.quantum + sum(s["dur"] for s in scn["write_stalls"])
+            nmsgs * 30000 * sim.quantum + sum(s["dur"] for s in scn["write_stalls"]) + \
+            sum(s["dur"] for s in scn.get("thread_stalls", [])) + sum(s["dur"] for s in scn.get("func_stalls", []))
 
         def main(sim):
             from bromelia.base import DiameterRequest, DiameterAnswer, DiameterAVP
@@ -196,6 +219,10 @@ class C05(Check):
                         sim.sleep(op["wait"])
                 return True
 
+            stats["thread_stalls"] = w.apply_stalls(scn.get("thread_stalls"))
+            # function-entry anchored stalls count calls from here on
+            sim.func_calls.clear()
+            install_func_stalls(sim, scn.get("func_stalls"))
             recs = [w.call("submitter%d" % si, submitter, si, spec) for si, spec in enumerate(scn["subs"])]
             t0 = sim.now
             for k, ib in enumerate(scn["inbound"]):
@@ -303,7 +330,7 @@ class C05(Check):
                     break
                 order[s["sub"]] = s["seq"]
         faults = {"partial_write": pw, "one_byte_write": w.net.stats["one_byte_writes"],
-                  "write_stall": w.net.stats["write_stalls"],
+                  "write_stall": w.net.stats["write_stalls"], "thread_stall": sim.stalls_fired,
                   "inbound_messages": len(scn["inbound"]),
                   "inbound_while_output_pending": stats["inbound_while_pending"],
                   "batch_limit_hit": 1 if (limit < 4096 * 64 and sum(len(s["raw"]) for s in submitted) > limit) else 0,
